@@ -82,6 +82,17 @@ int ldb_batch_insert_into(const ldb_batch_t *batch, ldb_memtable_t *table) {
   if (g_lr_cur == g_lk) { g_ins_k++; g_ins_k_rc = rc; }
   return rc;
 }
+uint64_t nondet_u64x(void);
+
+/* lenient models of helpers convert_log_to_table does not call today: a restructured version that starts using them
+   then fails the SEMANTIC obligations below (e.g. "queued for scanning") instead of only tripping over a missing body */
+void *ldb_malloc(size_t size) { void *p = malloc(size); __CPROVER_assume(p != NULL); return p; }
+void ldb_free(void *ptr) { free(ptr); }
+uint64_t ldb_batch_sequence(const ldb_batch_t *b) { return nondet_u64x(); }
+unsigned g_tables_vecpush;
+void ldb_vector_push(ldb_vector_t *z, const void *x) { g_tables_vecpush++; }
+
+
 int ldb_batch_count(const ldb_batch_t *batch) {
   int c = nondet_int();
   /* a log holds fewer than 2^31 operations in total ('counter' is an int: see observations) */
